@@ -57,18 +57,23 @@ def scen_check(module, level, rule, min_obs_quick=None, min_obs_thorough=None, c
             total = {"evaluations": 0, "nontrivial_sigs": set(), "obs": {}, "inconclusive": 0, "samples": []}
             if replay_doc is not None and replay_doc.get("cases"):
                 seed = replay_doc["cases"][0].get("seed", seed)
-        if extra is not None and (not replay or total["evaluations"] == 0):
+        extras = extra if isinstance(extra, (list, tuple)) else ([extra] if extra is not None else [])
+        run_extras = bool(extras) and (not replay or total["evaluations"] == 0)
+        for xi, xf in enumerate(extras if run_extras else []):
             try:
-                ev, eo, en = extra(prop, tier, seed)
+                ev, eo, en = xf(prop, tier, seed)
             except build.Inconclusive as e:
                 # an add-on pass that cannot be built must not hide what the main engines found
                 print("note: add-on pass of %s not built: %s" % (prop, str(e).splitlines()[-1][:200]))
                 ev, eo, en = [], {"addon_pass_unavailable": 1}, 0
             viols.extend(ev)
             total["evaluations"] += en
-            total["nontrivial_sigs"].update("x%d" % i for i in range(en))
+            total["nontrivial_sigs"].update("x%d.%d" % (xi, i) for i in range(en))
             for k, val in eo.items():
-                total["obs"][k] = total["obs"].get(k, 0) + val
+                if isinstance(val, set):
+                    total["obs"].setdefault(k, set()).update(val)
+                else:
+                    total["obs"][k] = total["obs"].get(k, 0) + val
         mo = None if replay else (min_obs_quick if tier == "quick" else (min_obs_thorough or min_obs_quick))
         return core.conclude(prop, tier, seed, level, total, viols, t0, rule, min_obs=mo,
                              assumptions=assumptions,
@@ -171,6 +176,77 @@ def win_handles_pass(prop, tier, seed):
             elif f[0] == "H":
                 obs["win_handle_cases"] += int(f[1])
     return viols, obs, obs["win_handle_cases"]
+
+
+EXAMPLE_RUNS = [
+    ("drain", ["echo", "hello"]), ("drain", ["sh", "-c", "echo out; echo err >&2; exit 3"]), ("drain", ["sh", "-c", "head -c 300000 /dev/zero | tr '\\0' x"]),
+    ("drain", ["/nonexistent/program"]), ("drain", ["true"]),
+    ("read", ["echo", "hi"]), ("read", ["sh", "-c", "echo a; sleep 0.05; echo b >&2"]), ("read", ["/nonexistent/program"]),
+    ("read", ["sh", "-c", "head -c 200000 /dev/zero | tr '\\0' y"]),
+    ("run", ["echo", "hi"]), ("run", ["sh", "-c", "exit 7"]), ("run", ["sleep", "0.2"]), ("run", ["/nonexistent/program"]),
+    ("parent", ["echo", "hi"]), ("parent", ["cat"]), ("parent", ["sh", "-c", "exit 5"]), ("parent", ["/nonexistent/program"]),
+    ("path", ["sh", "-c", "echo x; echo y >&2"]), ("path", ["/nonexistent/program"]),
+    ("env", ["VERIF_EXAMPLE=1", "OTHER=two words"]), ("env", []),
+    ("poll", []),
+]
+
+
+def examples_pass(prop, tier, seed):
+    """C05, realistic-usage half: the repository's own example programs (reproc/examples/*.c, main renamed) linked
+    against the interposed library under ASan+UBSan with the ownership ledger on (src/exdrv.c)."""
+    import os
+    import shutil
+    import subprocess
+    from concurrent.futures import ThreadPoolExecutor
+    bins = build.build_examples("asan")
+    env = dict(os.environ)
+    env.update(core.SAN_ENV)
+    root = os.path.join(core.BUILD, "run", "ex.%d" % os.getpid())
+    os.makedirs(root, exist_ok=True)
+    runs = [(i, n, a) for i, (n, a) in enumerate(EXAMPLE_RUNS) if n in bins] * (1 if tier == "quick" else 5)
+
+    def work(job):
+        i, n, a = job
+        cwd = os.path.join(root, "r%d.%d" % (i, id(job) % 100000))
+        os.makedirs(cwd, exist_ok=True)
+        try:
+            p = subprocess.run([bins[n]] + a, stdin=subprocess.DEVNULL, stdout=subprocess.DEVNULL, stderr=subprocess.PIPE, env=env, cwd=cwd,
+                               timeout=120, text=True, errors="replace")
+            return n, a, p.returncode, p.stderr
+        except subprocess.TimeoutExpired:
+            return n, a, 124, ""
+    with ThreadPoolExecutor(8) as ex:
+        outs = list(ex.map(work, runs))
+    shutil.rmtree(root, ignore_errors=True)
+    obs = {"example_runs": 0, "example_programs": set()}
+    viols = []
+    for n, a, rc, err in outs:
+        what = "%s %s" % (n, " ".join(a))
+        case = {"seed": seed, "module": "examples", "example": n, "args": a}
+        if rc == 124:
+            obs["harness_timeouts"] = obs.get("harness_timeouts", 0) + 1
+            continue
+        line = [l for l in err.splitlines() if l.startswith("EXDRV\t")]
+        if not line:
+            kind = "asan" if "AddressSanitizer" in err else "ubsan" if "runtime error" in err else "assert" if "Assertion" in err else "crash"
+            viols.append((prop, "%s/examples/%s:%s" % (prop, kind, n), "example '%s' died (rc=%d): %s" % (what, rc, err[-400:]), case, [err[-2000:]]))
+            continue
+        obs["example_runs"] += 1
+        obs["example_programs"].add(n)
+        f = dict(x.split("=", 1) for x in line[0].split("\t")[1:])
+        for key, cls, msg in (("owned_fds", "fd-leak", "descriptors still owned by the library when the example's main returned"),
+                              ("live_allocs", "memory-leak", "allocations never released"),
+                              ("foreign_close", "foreign-close", "close() of descriptors the library did not open"),
+                              ("double_close", "double-close", "descriptors closed twice"),
+                              ("unknown_free", "unknown-free", "free() of pointers the library did not allocate"),
+                              ("badtarget", "badtarget", "kill/waitpid aimed at something that is not a live child of the library"),
+                              ("zombies", "zombie-left", "children left unreaped"),
+                              ("running", "child-left-running", "a child is still running after the example finished")):
+            if int(f.get(key, "0")):
+                viols.append((prop, "%s/examples/%s:%s" % (prop, cls, n), "example '%s': %s %s" % (what, f[key], msg), case, [line[0]]))
+        if f.get("fd_table_same") != "1":
+            viols.append((prop, "%s/examples/fd-table-changed:%s" % (prop, n), "example '%s': the descriptor table differs from the one before main" % what, case, [line[0]]))
+    return viols, obs, obs["example_runs"]
 
 
 def rt_pass(prop, tier, seed):
@@ -376,11 +452,12 @@ CHECKS = {
         "every user-supplied handle/FILE/standard stream must still be open; the same ledger oracle also runs (fault-free) over "
         "all 262 redirect configurations x 9 descriptor situations of C10, and over a slice of the workloads of C07/C08/C09/C14/C15/C16/C17 "
         "(poll and wait grids with expired deadlines, random call sequences, drain/run, stop and destroy in every state) whenever "
-        "every handle of the case was destroyed again; non-trivial = fault fired or fault-free scenario",
+        "every handle of the case was destroyed again; plus the repository's own example programs (reproc/examples) on 22 command lines under the ledger; "
+        "non-trivial = fault fired or fault-free scenario",
         {"ledger_checks": 3000, "faults_fired": 3000, "sites": 2000, "config_ledger_checks": 2000,
-         "sequence_ledger_checks": 2500, "sequence_sources": 6, "win_handle_cases": 5000},
+         "sequence_ledger_checks": 2500, "sequence_sources": 6, "win_handle_cases": 5000, "example_runs": 18, "example_programs": 6},
         assumptions=KERNEL_TRUST + ["Windows half only at the CreateProcessW boundary: the thread handle is closed once, no handle of the caller is closed"],
-        extra=win_handles_pass),
+        extra=[win_handles_pass, examples_pass]),
     "C12": scen_check(
         "eng_fault", "fault_enumeration",
         "same campaign with random initial signal masks and dispositions (default/ignore/handler for SIGINT, SIGUSR1, SIGUSR2): "
